@@ -13,7 +13,6 @@ namespace AutoVerif.C19
 
 /-! ### decimal numerals: (length, then string order) is numeric order -/
 
-
 private def dig (c : Char) : Nat := c.toNat - 48
 private def val (l : List Char) : Nat := Nat.ofDigitChars 10 l 0
 
@@ -198,7 +197,6 @@ private theorem numVal_repr (n : Nat) : numVal (toString n) = n := by
 theorem numLt_toString (n m : Nat) : numLt (toString n) (toString m) = true ↔ n < m := by
   rw [numLt_iff _ _ (isCanon_repr n) (isCanon_repr m), numVal_repr, numVal_repr]
 
-
 /-- `numVal` is the value `String.toNat?` / `String.toNat!` assign to a canonical numeral -/
 theorem numVal_eq_toNat? (s : String) (h : isCanon s = true) : s.toNat? = some (numVal s) := by
   obtain ⟨hne, hd⟩ := canon_digits h
@@ -220,7 +218,6 @@ example : isCanon "099" = false ∧ numLt "99" "099" = true ∧ numVal "99" = nu
 example : numLt (toString 9999999999999999999) (toString 10000000000000000000) = true := by decide
 
 /-! ### the sorted key map -/
-
 
 private structure StrictTotal (lt : String → String → Bool) : Prop where
   irrefl : ∀ a, lt a a = false
@@ -408,7 +405,6 @@ private theorem keysDesc_newest {α} {lt} (m : SKM α) (hm : m.WF lt) (n : Nat) 
   have hp : (m.keys.reverse.take n ++ m.keys.reverse.drop n).Pairwise (fun a b => lt b a = true) := by
     rw [hsplit]; exact List.pairwise_reverse.mpr hm.1
   exact (List.pairwise_append.mp hp).2.2 k' hk' k hkd
-
 
 /-! ### history tracker -/
 
@@ -2137,91 +2133,5 @@ theorem all_mined_after_final_load (ops : List TLOp) :
 example : stressReplay [(3, [⟨"node-1", 0, 0⟩, ⟨"node-0", 1, 1⟩]), (9, [⟨"node-2", 0, 2⟩])] =
     (true, [[⟨"node-1", 0, 0⟩, ⟨"node-0", 1, 1⟩], [⟨"node-2", 0, 2⟩]],
      [⟨⟨"node-1", 0, 0⟩, some 3⟩, ⟨⟨"node-2", 0, 2⟩, some 9⟩, ⟨⟨"node-0", 1, 1⟩, some 3⟩]) := by decide
-
-/-! ### tie to the source: the model's decisions are the expressions regenerated from the Go code
-
-`Gen.Src.c19…` are translated from tools/simulator on every check run (extract/exprs.d/C19.json).  A changed
-operator or operand there changes these definitions and the theorems below stop checking.
-(`createPluginTransmitEvents`' `new(big.Int).Sub(latest.Number, chainEvent.BlockNumber).Int64()` is a
-method-call chain the translator cannot express; its exact text is pinned by the site expectation in
-extract/expect.json instead.) -/
-
-/-- the `less` closure of `SortedKeyMap.Set`: `if len(a) != len(b) { return len(a) < len(b) }; return a < b` -/
-theorem numLt_matches_source (a b : String) :
-    numLt a b = if Gen.Src.c19KeyLenDiffer a.length b.length then Gen.Src.c19KeyShorter a.length b.length
-                else Gen.Src.c19KeyLexLess a b := by
-  unfold numLt Gen.Src.c19KeyLenDiffer Gen.Src.c19KeyShorter Gen.Src.c19KeyLexLess
-  split <;> simp_all
-
-/-- `Set`: the key is appended and the slice re-sorted exactly under `!ok` -/
-theorem set_matches_source {α} (lt : String → String → Bool) (m : SKM α) (k : String) (v : α) :
-    m.set lt k v =
-      if Gen.Src.c19SetNewKey (m.get k).isSome then { keys := insertSorted lt k m.keys, vals := (k, v) :: m.vals }
-      else { m with vals := (k, v) :: m.vals } := by
-  unfold SKM.set Gen.Src.c19SetNewKey
-  split <;> simp_all
-
-/-- `Keys`: `if count > keysLen { count = keysLen }`, then `for i := 1; i <= count; i++ { keys[i-1] = m.keys[keysLen-i] }` -/
-theorem keysDesc_matches_source {α} (m : SKM α) (count : Nat) :
-    m.keysDesc count =
-      ((List.range (if Gen.Src.c19KeysClamp count m.keys.length then m.keys.length else count)).map
-        fun j => m.keys.getD (m.keys.length - (j + 1)) "") ∧
-    ∀ n i, (1 ≤ i ∧ Gen.Src.c19KeysLoop i n = true) ↔ (1 ≤ i ∧ i - 1 ∈ List.range n) := by
-  refine ⟨?_, ?_⟩
-  · unfold SKM.keysDesc Gen.Src.c19KeysClamp
-    simp only [decide_eq_true_eq]
-  · intro n i
-    simp only [Gen.Src.c19KeysLoop, decide_eq_true_eq, List.mem_range]
-    omega
-
-/-- `Transmit`: refused exactly when the `(report, round)` key is in the index (`if _, ok := tl.transmitted[key]; ok`) -/
-theorem transmit_matches_source (tl : TL) (t : Transmit) :
-    tl.transmit t =
-      if Gen.Src.c19TransmitDuplicate (tl.transmitted.any (sameKey t)) then (tl, false)
-      else ({ queue := tl.queue ++ [t], transmitted := tl.transmitted ++ [t] }, true) := rfl
-
-/-- `Load`: a block gets no perform transaction exactly when `len(tl.queue) == 0` -/
-theorem load_matches_source (tl : TL) : (tl.load).2.isEmpty = Gen.Src.c19LoadNothing tl.queue.length := by
-  cases h : tl.queue <;> simp [TL.load, Gen.Src.c19LoadNothing, h]
-
-/-- `updateBlock`: `rt.latest == nil || rt.latest.Number == nil || (block.Number != nil && block.Number.Cmp(rt.latest.Number) > 0)`
-    (block numbers are never nil in the model) -/
-theorem onBlock_matches_source (rt : RT) (b : Block) :
-    rt.onBlock b =
-      if Gen.Src.c19LatestMoves rt.latest.isNone false true
-          (match rt.latest with | some l => bigCmp b.number l.number | none => 0)
-      then { rt with latest := some b } else rt := by
-  unfold RT.onBlock Gen.Src.c19LatestMoves bigCmp
-  cases h : rt.latest with
-  | none => simp
-  | some l =>
-    simp only [Option.isNone_some, Bool.false_or, Bool.true_and, decide_eq_true_eq]
-    by_cases h1 : b.number > l.number
-    · have h2 : ¬ b.number < l.number := by omega
-      have h3 : ¬ b.number = l.number := by omega
-      simp [h1, h2, h3]
-    · by_cases h2 : b.number < l.number
-      · simp [h1, h2]
-      · have h3 : b.number = l.number := by omega
-        simp [h3]
-
-/-- `run`: block `n` is broadcast unless `bb.nextBlock.Cmp(bb.limit) > 0`, with `limit = genesis + count - 1` -/
-theorem chainNumbers_matches_source (g count n : Nat) (hc : 0 < count) :
-    n ∈ chainNumbers g count ↔ (g ≤ n ∧ Gen.Src.c19PastLimit (bigCmp n (g + (count - 1))) = false) := by
-  simp only [chainNumbers, List.mem_map, List.mem_range, Gen.Src.c19PastLimit, bigCmp, decide_eq_false_iff_not]
-  constructor
-  · rintro ⟨i, hi, rfl⟩
-    refine ⟨by omega, ?_⟩
-    by_cases h1 : g + i < g + (count - 1)
-    · simp [h1]
-    · have : g + i = g + (count - 1) := by omega
-      simp [this]
-  · rintro ⟨h1, h2⟩
-    refine ⟨n - g, ?_, by omega⟩
-    by_cases h3 : n < g + (count - 1)
-    · omega
-    · by_cases h4 : n = g + (count - 1)
-      · omega
-      · simp [h3, h4] at h2
 
 end AutoVerif.C19
